@@ -343,3 +343,21 @@ PROPS = {
                        "expression's own variable mapping (MP, SL2). Not decided: the printed numbers. Added after the fourth seeding round: VarOrder::new fills var_to_pos as the inverse of pos_to_var (VO inverse-by-construction); apply reads one table and smoothing the other. Added after the fourth seeding round: the DIMACS reader keeps every clause and every literal of the text (NC: every iteration of a loop over the items pushes onto its accumulator; an iterator chain from the items to collect() has no filter/skip/take/dedup) - a dropped clause gives the result extra models while everything downstream stays consistent. Added: MF — the `auto_minfill` order the tools compile under is a permutation of the variables by construction (see C14). Added: EM — empty cases by abstract evaluation under the assumption that one collection is empty (loops over it do not run, len = 0, pop/last/next = None): what the CNF tool's strategies (dtree plan, auto_force order) do on degenerate inputs: D13 repaired, the dtree of the empty formula is a known finding. Added: SH1 — the formula tool compiles Ite/Xor/Iff through ite_helper, whose decision node is node(first essential variable of (f,g,h), ite of the false-cofactors, ite of the true-cofactors). Added (round 9): UV, TX (see C17); GL6/GL9 of the BDD code (see C08). Added (round 10): DI - a field initialised with a function of a sibling field (eagerly derived) is stored again by every method that changes the sibling, also through interior mutability; PA - a call that opens a scope (enter/begin/open/...) whose counterpart exists in the crate is followed by the counterpart on every path to a return. Added (round 10, second half): FS reduce<-or of BottomUpPlan::from_dtree (an empty clause is false: the fall-back of reduce(or) is the identity of or); GL12, SL4 (see C08); CP root-is-helper-result for the BDD serialiser.",
     },
 }
+
+
+# Round 11: clauses added to the claims (kept apart from the long strings above; appended to each property's explanation)
+_R11 = {
+    "UL": "Added (round 11): UL - a type that undoes removals from a set through a log records a log entry only for a removal that removed something (the push depends on the result of `remove` or on a `contains`); an entry for a no-op removal makes the undo insert an element that was not there.",
+    "NCC": "Added (round 11): NC carried - a working list the dtree builder pushes onto inside its elimination loop is read after the loop (what no step selected - an empty clause, a clause over unlisted variables - stays part of the tree).",
+    "DPL": "Added (round 11): DP labels-from-variable-mapping - the table from_sexpr's worker looks names up in is variable_mapping(), a numbering derived from unique_variables(), or the caller's; a table that starts empty numbers the variables by first mention.",
+    "EDG": "Added (round 11): WC bdd-edges - a function outside the accepted direct readers that follows a stored BddNode edge asks for that edge's sign.",
+    "SPV": "Added (round 11): SP2 every-node-variant - an SDD clear_scratch that looks at the variant of a child clears or walks on for each of the four node-carrying variants.",
+    "RNM": "Added (round 11): RN3 nonfalse-prime / exhaustive-primes also for elements built by a map chain; CP reads the item of a closure mapped over node_iter(captured pointer) as an element of that pointer; SH2 binary-case reads children fetched through the node behind the pointer (stored children carry no complement).",
+    "BB5": "Added (round 11): BB5 - a pruning test behind a private predicate is evaluated at witness points: an upper bound above the incumbent by however little must be explored (a fixed tolerance prunes improving branches).",
+    "GL2": "Added (round 11): GL2 slot-after-growth also through a private slot helper that is handed the table.",
+    "RHD": "Added (round 11): RH displaced-from-own-slot takes the slot write on either side of the displacement.",
+}
+for _pid, _ks in {"C01": ("EDG", "GL2"), "C02": ("RHD",), "C03": ("RNM", "GL2"), "C04": ("RNM", "RHD"), "C05": ("NCC",), "C06": ("UL",),
+                  "C07": ("EDG", "SPV"), "C08": ("SPV",), "C09": ("UL",), "C10": ("SPV",), "C12": ("BB5",), "C14": ("NCC",),
+                  "C15": ("UL",), "C16": ("GL2",), "C17": ("DPL",), "C19": ("DPL", "NCC")}.items():
+    PROPS[_pid]["explanation"] = PROPS[_pid]["explanation"].rstrip() + " " + " ".join(_R11[k] for k in _ks)
